@@ -95,16 +95,24 @@ def extData (u : Bytes) (k : Nat) : Bytes := (u.drop offExtData).take k
 def pairNamesize (u : Bytes) : Nat := (u.getD offPairNamesize 0).toNat + 256 * (u.getD (offPairNamesize + 1) 0).toNat
 def le16 (n : Nat) : Bytes := [UInt8.ofNat (n % 256), UInt8.ofNat (n / 256 % 256)]
 
-/-- `qhasharr_calculate_memsize(max)` -/
-def calculateMemsize (max : Nat) : Nat := sizeofHeader + sizeofSlot * max
+/-- `qhasharr_calculate_memsize(max)`: `sizeof(header) + sizeof(slot) * max` in `size_t` (`max ≥ 0`) -/
+def calculateMemsize (max : Nat) : Nat := (sizeofHeader + sizeofSlot * max) % 18446744073709551616
 
-/-- `qhasharr(memory, memsize)` with `memsize > 0`: `none` = NULL/EINVAL.
-    `memsize ≤ sizeof(qhasharr_t)` is rejected; above that `(memsize - sizeof(header)) / sizeof(slot) ≥ 1`
-    (checked below by `decide`), so the first disjunct of the C test is subsumed. -/
+/-- `int maxslots = (memsize - sizeof(qhasharr_data_t)) / sizeof(qhasharr_slot_t)`: the subtraction
+    is done in `size_t` (it wraps when `memsize` is smaller than the header), the quotient is
+    converted to `int` (two's complement truncation) -/
+def ctorMaxslots (memsize : Nat) : Int :=
+  let diff : Nat := (memsize + 18446744073709551616 - sizeofHeader) % 18446744073709551616   -- 2^64
+  let w : Nat := diff / sizeofSlot % 4294967296                                              -- 2^32
+  if w < 2147483648 then (w : Int) else (w : Int) - 4294967296
+
+/-- `qhasharr(memory, memsize)` with `memsize > 0` (`memsize < 2^64`): `none` = NULL / EINVAL, nothing
+    written. Otherwise the whole region is zeroed and the header written: the image has as many
+    slots as fit into the region and the `maxslots` field the constructor computed. -/
 def initMem (memsize : Nat) : Option Img :=
-  let maxslots := (memsize - sizeofHeader) / sizeofSlot
-  if maxslots < 1 ∨ memsize ≤ sizeofHandle then none
-  else some { maxslots := maxslots, usedslots := 0, num := 0, slots := Array.replicate maxslots zeroSlot }
+  if ctorMaxslots memsize < 1 ∨ memsize ≤ sizeofHandle then none
+  else some { maxslots := ctorMaxslots memsize, usedslots := 0, num := 0,
+              slots := Array.replicate ((memsize - sizeofHeader) / sizeofSlot) zeroSlot }
 
 /-- the freshly initialised table of `cap` slots (`initMem (calculateMemsize cap)` for `cap ≥ 2`) -/
 def init (cap : Nat) : Img :=
@@ -409,7 +417,12 @@ def getnextLoop (img : Img) : Nat → Int → Except Fault (Option Obj × Int)
     else pure (none, idx)
 
 def getnext (img : Img) (idx : Int) : Except Fault (Option Obj × Int) :=
-  getnextLoop img (img.slots.size + 1) idx
+  if idx < 0 then pure (none, idx)          -- EINVAL, `*idx` unchanged
+  else getnextLoop img (img.slots.size + 1) idx
+
+/-- errno of a `false` answer `(none, idx')` of `getnext`: EINVAL for a negative index (which is
+    returned unchanged), ENOENT at the end of the table (`idx' ≥ 0`) -/
+def getnextErrno (idx' : Int) : Errno := if idx' < 0 then .EINVAL else .ENOENT
 
 /-- `qhasharr_size`: `(num, maxslots, usedslots)` -/
 def size (img : Img) : Int × Int × Int := (img.num, img.maxslots, img.usedslots)
@@ -433,6 +446,66 @@ def walkLoop (img : Img) : Nat → Int → Except Fault (List (Int × Obj))
       pure ((idx' - 1, obj) :: rest)
 
 def walk (img : Img) : Except Fault (List (Int × Obj)) := walkLoop img (img.slots.size + 1) 0
+
+/-! ### argument validation of the public entry points
+
+  Pointer arguments are modelled by their presence (`false` = NULL). Every public function first
+  tests its arguments and answers EINVAL (EIO for a NULL stream of `debug`) without touching the
+  image; `invProbe` is the list of documented-invalid calls the harness makes with its `inv`
+  operation, answered through these tests. -/
+
+/-- `put_by_obj`: `tbl == NULL || name == NULL || namesize == 0 || data == NULL || datasize == 0` -/
+def putInvalid (tbl name : Bool) (namesize : Nat) (data : Bool) (datasize : Nat) : Bool :=
+  !tbl || !name || namesize == 0 || !data || datasize == 0
+/-- `get_by_obj` / `remove_by_obj`: `tbl == NULL || name == NULL || namesize == 0` -/
+def keyInvalid (tbl name : Bool) (namesize : Nat) : Bool := !tbl || !name || namesize == 0
+/-- `getnext`: `tbl == NULL || obj == NULL || idx == NULL || *idx < 0` -/
+def nextInvalid (tbl obj idxp : Bool) (idx : Int) : Bool := !tbl || !obj || !idxp || decide (idx < 0)
+/-- `remove_by_idx`: `idx < 0 || idx >= maxslots` -/
+def idxInvalid (img : Img) (idx : Int) : Bool := decide (idx < 0 ∨ idx ≥ img.maxslots)
+
+def einvalIf (b : Bool) (other : String) : String := if b then "EINVAL" else other
+
+/-- the documented-invalid calls of the `inv` probe (and two valid border cases: a NULL size
+    pointer for `get_by_obj`, NULL output pointers for `size`), each with its answer; `probe` is a
+    key that is not stored, with its hash and digest. The image is returned as the calls leave it. -/
+def invProbe (img : Img) (probe : Bytes) (h32 : Nat) (md5 : Bytes) : Except Fault (Img × List (String × String)) := do
+  let g ← get img probe h32 md5
+  let gs := match g with
+    | .ok _ => "data"
+    | .error e => "null:" ++ e.name
+  pure (img, [
+    ("pbo:nn", einvalIf (putInvalid true false 1 true 1) "?"),     -- put_by_obj(tbl, NULL, 1, d, 1)
+    ("pbo:ns0", einvalIf (putInvalid true true 0 true 1) "?"),     -- put_by_obj(tbl, k, 0, d, 1)
+    ("pbo:dn", einvalIf (putInvalid true true 1 false 1) "?"),     -- put_by_obj(tbl, k, 1, NULL, 1)
+    ("pbo:ds0", einvalIf (putInvalid true true 1 true 0) "?"),     -- put_by_obj(tbl, k, 1, d, 0)
+    ("pbo:tbl", einvalIf (putInvalid false true 1 true 1) "?"),    -- put_by_obj(NULL, k, 1, d, 1)
+    ("put:nn", einvalIf (putInvalid true false 0 true 1) "?"),     -- put(tbl, NULL, d, 1): namesize 0
+    ("put:dn", einvalIf (putInvalid true true 2 false 1) "?"),     -- put(tbl, "k", NULL, 1)
+    ("put:ds0", einvalIf (putInvalid true true 2 true 0) "?"),     -- put(tbl, "k", d, 0)
+    ("putstr:nn", einvalIf (putInvalid true false 0 true 2) "?"),  -- putstr(tbl, NULL, "x")
+    ("putstr:dn", einvalIf (putInvalid true true 2 false 0) "?"),  -- putstr(tbl, "k", NULL): size 0
+    ("gbo:nn", einvalIf (keyInvalid true false 1) "?"),            -- get_by_obj(tbl, NULL, 1, &sz)
+    ("gbo:ns0", einvalIf (keyInvalid true true 0) "?"),            -- get_by_obj(tbl, k, 0, &sz)
+    ("gbo:tbl", einvalIf (keyInvalid false true 1) "?"),           -- get_by_obj(NULL, k, 1, &sz)
+    ("get:nn", einvalIf (keyInvalid true false 0) "?"),            -- get(tbl, NULL, &sz)
+    ("getstr:nn", einvalIf (keyInvalid true false 0) "?"),         -- getstr(tbl, NULL)
+    ("gbo:nosize", einvalIf (keyInvalid true true probe.length) gs), -- get_by_obj(tbl, probe, n, NULL)
+    ("rbo:nn", einvalIf (keyInvalid true false 1) "?"),            -- remove_by_obj(tbl, NULL, 1)
+    ("rbo:ns0", einvalIf (keyInvalid true true 0) "?"),            -- remove_by_obj(tbl, k, 0)
+    ("rbo:tbl", einvalIf (keyInvalid false true 1) "?"),           -- remove_by_obj(NULL, k, 1)
+    ("rm:nn", einvalIf (keyInvalid true false 0) "?"),             -- remove(tbl, NULL)
+    ("rmi:-1", einvalIf (idxInvalid img (-1)) "?"),                -- remove_by_idx(tbl, -1)
+    ("rmi:max", einvalIf (idxInvalid img img.maxslots) "?"),       -- remove_by_idx(tbl, maxslots)
+    ("next:obj", einvalIf (nextInvalid true false true 0) "?"),    -- getnext(tbl, NULL, &idx)
+    ("next:idx", einvalIf (nextInvalid true true false 0) "?"),    -- getnext(tbl, &obj, NULL)
+    ("next:tbl", einvalIf (nextInvalid false true true 0) "?"),    -- getnext(NULL, &obj, &idx)
+    ("next:-1", einvalIf (nextInvalid true true true (-1)) "?"),   -- getnext(tbl, &obj, &idx), idx = -1
+    ("size:tbl", einvalIf (!false) "?"),                            -- size(NULL, &max, &used) = -1
+    ("size:noout", toString img.num),                               -- size(tbl, NULL, NULL)
+    ("clear:tbl", einvalIf (!false) "?"),                           -- clear(NULL)
+    ("debug:tbl", einvalIf (!false) "?"),                           -- debug(NULL, stdout)
+    ("debug:out", "EIO")])                                          -- debug(tbl, NULL)
 
 /-! ### layout facts the model relies on (re-checked against the regenerated constants) -/
 
